@@ -48,6 +48,11 @@ def impl_formulas(c):
     from skchange.change_detectors import PELT, MovingWindow as MW, SeededBinarySegmentation as SBS
 
     n, p, k, s = c["n"], c["p"], c["k"], c["scale"]
+    form = core._bits(c, 0, 3)  # the same numbers as Python ints / floats, as NumPy scalars, or with an integral scale passed as an int
+    if form == 1:
+        n, p, k, s = np.int64(n), np.int64(p), np.int64(k), np.float64(s)
+    elif form == 2 and float(s) == int(s):
+        s = int(s)
     out = {"outcome": "ok"}
     try:
         out["capa_penalty"] = [float(mv.capa_penalty(n, k * p, s))]
@@ -170,6 +175,11 @@ def impl_fitted(c):
 
     n, p, s = c["n"], c["p"], c["scale"]
     X = np.random.default_rng(c["seed"]).normal(size=(n, p))
+    form = core._bits(c, 0, 3)
+    if form == 1:
+        s = np.float64(s)
+    elif form == 2 and float(s) == int(s):
+        s = int(s)
     try:
         if c["det"] == "pelt":
             got, want = PELT(penalty_scale=s).fit(X).penalty_, s * PELT.get_default_penalty(n, p)
